@@ -43,7 +43,7 @@ def callOn (m : OffMethod) (kids : List (List α)) (iv : Option (Nat × Nat)) (e
     Except PyErr (List α) :=
   callOff m (kids.take m.kids.length) (if m.interval then iv else none) extra
 
-def evalOffG (w : Env α) (n : Nat) : F α → Except PyErr (List α)
+def evalOffG (w : Rtamt.Env α) (n : Nat) : F α → Except PyErr (List α)
   | .var x =>
       match lookupM .Variable with
       | some m => do
